@@ -567,6 +567,46 @@ func runC20(h *Harness) {
 				return
 			}
 		}
+		// the work_dir belongs to the live instance: a second validator configured with the same work_dir is refused, its
+		// Cleanup (Caddy cleans up a module whose Provision failed) takes nothing away from the owner, and a third one is
+		// refused just the same; the owner's stores are untouched
+		if tp.Chance(1, 3) {
+			var errs []error
+			for k, tag := range []string{"b", "c"} {
+				x := h.NewNodeOn(fmt.Sprintf("n1c%d%s", c, tag), cfg, wd)
+				x.WorkDirAs = n.WorkDirAs
+				err := h.Provision(x)
+				errs = append(errs, err)
+				h.R.Checks++
+				if err == nil {
+					h.Violation("C20.workdir-exclusive", map[int]string{0: "second-instance-accepted", 1: "accepted-after-a-refused-instance-was-cleaned-up"}[k], "cycle %d: while the instance that owns the work_dir is live, another validator configured with the same work_dir was provisioned successfully (attempt %d)", c+1, k+1)
+				}
+				h.Cleanup(x)
+				h.Settle(2 * time.Second)
+			}
+			h.R.NonTrivial = true
+			sc["intruders"] = fmt.Sprint(errs)
+			h.Quiesce()
+			checkQuiescent(n, fmt.Sprintf("cycle %d after two refused instances on the same work_dir", c+1))
+			if !faulty {
+				for _, u := range locs {
+					alias := false
+					for _, o := range locs {
+						if o != u && normSent(o.URL) == normSent(u.URL) {
+							alias = true // the same resource under two spellings (with different content in this model)
+						}
+					}
+					if usedLocs[u.URL] && !alias {
+						if pt := u.Pattern(n); !strings.HasPrefix(pt, "v") {
+							h.Violation("C20.live-store-deleted", "after-refused-instances", "cycle %d: after two refused instances on its work_dir the owner no longer answers from the list of %.60q (pattern %s)", c+1, u.URL, pt)
+						}
+					}
+				}
+			}
+			if len(h.R.Violations) > 0 {
+				return
+			}
+		}
 		// Cleanup, possibly while a refresh is in flight
 		if tp.Chance(1, 2) {
 			h.S.Run(func(v schedView) bool {
